@@ -110,6 +110,7 @@ type Gen struct {
 	lookupPos    token.Pos // source position contract names are resolved at (scoping)
 	decEntryFn   string    // value of the function's own decreases measure at entry (recursion)
 	loopTermBases map[string][]func(*State) (string, bool) // written objects named by terms, per heap variable (loop being analysed)
+	dtDecls       [][2]string // struct datatypes declared so far (id, declaration), in order
 }
 
 type debugRef struct {
